@@ -501,6 +501,13 @@ Definition add_part (c : cfg) (h : Z) (idx : Z) (b : blk) (decode_ok : bool) (ve
       else ret n1
   end.
 
+(* a node that has decided (commit step, maybe still waiting for the block) does not follow later
+   rounds: [any23] of an undecided node only, and the move to the next round likewise
+   (cs.Step < RoundStepCommit at the three round-skip sites of addVote, after repair F-12a) *)
+Definition any23_open (n : node) (o : option voteset) : bool := (step n <? 8) && any23 o.
+Definition enter_new_round_open (h r : Z) (n : node) : M :=
+  if step n <? 8 then enter_new_round h r n else ret n.
+
 (* addVote; error codes: 10 height mismatch, otherwise 20 + VoteSet's code *)
 Definition add_vote_cs (c : cfg) (v : vote) (peer : bytes) (n : node) : M :=
   if v_height v + 1 =? height n then
@@ -538,7 +545,7 @@ Definition add_vote_cs (c : cfg) (v : vote) (peer : bytes) (n : node) : M :=
              else n1
            | None => n1
            end in
-         if (round n2 <=? v_round v) && any23 prevotes then
+         if (round n2 <=? v_round v) && any23_open n2 prevotes then
            enter_new_round h (v_round v) n2 >>= (fun n3 =>
              match maj23 (hv_prevotes (votes n3) (v_round v)) with
              | Some _ => enter_precommit h (v_round v) n3
@@ -562,7 +569,7 @@ Definition add_vote_cs (c : cfg) (v : vote) (peer : bytes) (n : node) : M :=
          match maj23 precommits with
          | Some b =>
            match b_hash b with
-           | [] => enter_new_round h (v_round v + 1) n1
+           | [] => enter_new_round_open h (v_round v + 1) n1
            | _ =>
              enter_new_round h (v_round v) n1 >>= enter_precommit h (v_round v) >>= enter_commit c h (v_round v)
              >>= (fun n4 =>
@@ -570,7 +577,7 @@ Definition add_vote_cs (c : cfg) (v : vote) (peer : bytes) (n : node) : M :=
                     then enter_new_round (height n4) 0 n4 else ret n4)
            end
          | None =>
-           if (round n1 <=? v_round v) && any23 precommits then
+           if (round n1 <=? v_round v) && any23_open n1 precommits then
              enter_new_round h (v_round v) n1 >>= enter_precommit h (v_round v) >>= enter_precommit_wait h (v_round v)
            else ret n1
          end
